@@ -111,6 +111,7 @@ class Stats(object):
 
 
 _CHARVARS = {}
+NO_LEARN = bool(os.environ.get("PYSX_NO_LEARN"))
 DEBUG_FEAS = bool(os.environ.get("PYSX_DEBUG_FEAS"))
 CUR = None  # PathState of the path being executed (one explorer per process)
 
@@ -338,7 +339,7 @@ class PathState(object):
             ex.push_work(self.keys + [-k1 if d else k1], self.solver.model(), frozenset(self.raw_seen))
         elif r == z3.unsat:
             core = ex.core_keys(other_ast)
-            if core is not None:
+            if core is not None and not NO_LEARN:
                 ex.learned.setdefault(-k1 if d else k1, []).append(core)
         else:
             ex.note_inconclusive("unknown at branch")
